@@ -111,6 +111,14 @@ CLAIMED.update({
         design="DESIGN.md section 5, C07"),
 })
 
+CLAIMED.update({
+    "C08": dict(
+        text="Narrow, partial: Deductive proof (Verus) of the clause '#undef removes exactly the named macro' at the level the code allows: the real nested search loops of Context::undefine return the position (chunk, offset) of the first entry carrying the given name, or the table length when the name is absent, and the three parallel tables and the regex set of that chunk are updated at exactly that position (index expressions extracted verbatim).",
+        note="NOT decided (and the larger part of C08): whole-identifier matching, no expansion inside strings or longer identifiers, positional argument substitution, nested expansion, the >100-macro chunking, and the -D option. These are semantics of the regex crate (\\b, captures, replace_all) and of str::splitn, for which no specifications exist, and the table updates use last_mut()/IndexMut on Vec<Vec<_>> and a BTreeMap, outside Verus' subset; Kani on String tables is intractable here (a 10-line block over a String-keyed table did not finish in 18 minutes).",
+        technique="contract-based deductive verification (Verus loop invariants on the loops extracted mechanically from /repo)",
+        design="DESIGN.md section 5, C08"),
+})
+
 NOT_APPLICABLE = {
     "C11": "no contract within reach: the property is about the comment/splice scanner in cpp::process (str::split*/byte slicing without vstd specifications), pest WHITESPACE/COMMENT rules (generated parser) and a relation between two whole compilations",
 }
